@@ -308,6 +308,14 @@ var corpus = []string{
 
 func run(c *hl.Ctx) error {
 	if cs := c.ReplayCase(); cs != nil {
+		if cs["k"] == "race" {
+			var batch []cfg
+			for i, s := range corpus {
+				batch = append(batch, cfg{src: s, engine: []string{"dagre", "elk"}[i%2], sketch: i%3 == 0})
+			}
+			runBatch(c, batch, 2, 6)
+			return nil
+		}
 		in := cs["in"].(map[string]any)
 		sk, _ := in["sketch"].(bool)
 		runBatch(c, []cfg{{src: in["src"].(string), engine: in["engine"].(string), sketch: sk}}, 3, 6)
@@ -324,7 +332,13 @@ func run(c *hl.Ctx) error {
 	}
 	runBatch(c, batch, seqR, concR)
 	c.Count("corpus")
-	n := c.Pick(4, 6000)
+	n := c.Pick(4, 400)
+	if os.Getenv("D2V_RACE") != "" {
+		n = c.Pick(2, 48)
+	}
+	if c.Search && c.Tier != "thorough" {
+		n = 64
+	}
 	sc := &totalgen.Screener{}
 	defer sc.Close()
 	batch = nil
